@@ -595,6 +595,30 @@ def workload(ctx, repo):
                                  "start": start, "dur": dkw}}
                 ctx.case = case
                 run_case(ctx, repo, case)
+    # single steps from January that land exactly on (or a day beside) the
+    # first of March, in leap and common years
+    kk = 0
+    for y in (2021, 2023, 2020, 1900):
+        for d0 in (1, 10, 29, 31):
+            n0 = R.ymd_to_rd("gregorian", y, 3, 1) - \
+                R.ymd_to_rd("gregorian", y, 1, d0)
+            for dkw in ({"days": n0}, {"hours": 24 * n0}, {"days": n0 - 1},
+                        {"days": n0 + 1}, {"weeks": 4, "days": n0 - 28}):
+                for rep in gen.REPS:
+                    kk += 1
+                    if not ctx.mine(kk):
+                        continue
+                    a = gen.date_kwargs("gregorian", rep, R.ymd_to_rd(
+                        "gregorian", y, 1, d0))
+                    a.update({"hour_of_day": 12, "minute_of_hour": 0,
+                              "second_of_minute": 0})
+                    a.update(gen.zone_kwargs((0, 0)))
+                    case = {"op": "queries", "probe_seed": kk,
+                            "desc": {"mode": "gregorian", "fmt": 3,
+                                     "reps": 3, "start": a, "dur": dkw}}
+                    ctx.case = case
+                    ctx.ev("cases.january-to-march")
+                    run_case(ctx, repo, case)
     # one member far along a series of seconds (quick: number 100 004,
     # thorough: number 500 010)
     if ctx.worker == 0:
